@@ -150,6 +150,20 @@ def extra(rep, repo, registry, known_open):
             uu = [tuple(e) for e in rng.sample(list(_itt.combinations(vs, 2)), k)]
             for xs, ys, zs in rng.sample(qs, 6 if rep.tier == "quick" else 40):
                 r2_cases.append({"nodes": vs, "directed": d, "undirected": uu, "X": xs, "Y": ys, "Z": zs, "seed": rng.randrange(1 << 30)})
+    # collider chains: y -> c1 <-> ... <-> ck <- w -> z with every collider conditioned (the only open path runs along the whole chain)
+    for _ in range(300 if rep.tier == "quick" else 5000):
+        k = rng.choice([1, 2, 2, 3])
+        vs = oracles.names(k + 3)
+        y, w, z, cs = vs[0], vs[1], vs[2], vs[3:]
+        d = [(y, cs[0]), (w, cs[-1]), (w, z)]
+        uu = list(zip(cs, cs[1:]))
+        others = [(a, b) for a in vs for b in vs if a < b and (a, b) not in d and (b, a) not in d and (a, b) not in uu]
+        for e in rng.sample(others, rng.choice([0, 0, 1])):
+            (uu if rng.random() < 0.5 else d).append(e)
+        import networkx as _nx
+        if not _nx.is_directed_acyclic_graph(_nx.DiGraph(d)):
+            continue
+        r2_cases.append({"nodes": vs, "directed": d, "undirected": uu, "X": [], "Y": [y], "Z": [z] + cs, "seed": rng.randrange(1 << 30)})
     r2_fails = []
     with mp.get_context("fork").Pool(16) as pool:
         for c, why, err in pool.imap_unordered(_eval_r2, r2_cases, chunksize=16):
